@@ -7,6 +7,7 @@ verus! {
 pub broadcast proof fn l_u8_and(x: u8, m: u8) ensures #[trigger] (x & m) <= m { assert((x & m) <= m) by(bit_vector); }
 pub broadcast proof fn l_u16_and(x: u16, m: u16) ensures #[trigger] (x & m) <= m { assert((x & m) <= m) by(bit_vector); }
 pub broadcast proof fn l_u32_and(x: u32, m: u32) ensures #[trigger] (x & m) <= m { assert((x & m) <= m) by(bit_vector); }
+pub broadcast proof fn l_u64_and(x: u64, m: u64) ensures #[trigger] (x & m) <= m { assert((x & m) <= m) by(bit_vector); }
 pub broadcast proof fn l_u8_shr(x: u8, n: u8) requires n < 8 ensures #[trigger] (x >> n) <= 0xffu8 >> n { assert(n < 8 ==> (x >> n) <= 0xffu8 >> n) by(bit_vector); }
 pub broadcast proof fn l_u8_shr1(x: u8) ensures #[trigger] (x >> 1u8) <= 127 { assert((x >> 1u8) <= 127) by(bit_vector); }
 pub broadcast proof fn l_u8_shr2(x: u8) ensures #[trigger] (x >> 2u8) <= 63 { assert((x >> 2u8) <= 63) by(bit_vector); }
@@ -19,7 +20,7 @@ pub broadcast proof fn l_u16_shr13(x: u16) ensures #[trigger] (x >> 13u16) <= 7 
 pub broadcast proof fn l_u32_shr12(x: u32) ensures #[trigger] (x >> 12u32) <= 0xfffff { assert((x >> 12u32) <= 0xfffff) by(bit_vector); }
 
 pub broadcast group bits {
-    l_u8_and, l_u16_and, l_u32_and, l_u8_shr1, l_u8_shr2, l_u8_shr3, l_u8_shr4, l_u8_shr5, l_u8_shr6, l_u16_shr3, l_u16_shr13, l_u32_shr12,
+    l_u8_and, l_u16_and, l_u32_and, l_u64_and, l_u8_shr1, l_u8_shr2, l_u8_shr3, l_u8_shr4, l_u8_shr5, l_u8_shr6, l_u16_shr3, l_u16_shr13, l_u32_shr12,
 }
 
 } // verus!
